@@ -46,7 +46,7 @@ theorem hierT_diag (mx : Nat) (i : Fin n) : (hierT n mx).get i i = 0 := by
 theorem evenCIJ_core (mx k szcl : Nat) (ds : List Nat) {C : AMat Int n} {rest : List Nat}
     (h : evenCIJ n mx k szcl ds = .ok (C, rest)) (hsz : szcl ≤ mx)
     (hk1 : ((allCells n).countP (inCluster (hierT n mx) mx szcl) : Int) ≤ k) (hk2 : k ≤ n * (n - 1)) :
-    n = 2 ^ mx ∧ 2 ≤ mx ∧
+    n = 2 ^ mx ∧ 1 ≤ mx ∧
     (∀ p, cellVal C p = 0 ∨ cellVal C p = 1) ∧ (∀ i, cellVal C (i, i) = 0) ∧
     (∀ p, inCluster (hierT n mx) mx szcl p = true → cellVal C p = 1) ∧ matSum C = k := by
   unfold evenCIJ at h
@@ -56,13 +56,59 @@ theorem evenCIJ_core (mx k szcl : Nat) (ds : List Nat) {C : AMat Int n} {rest : 
     simp only at h
     split at h
     · rename_i hn
-      split at h
-      · simp at h
-      · rename_i hm
-        have hT : hierT n (m + 1) = hierTemplate hn := by simp [hierT, hn]
-        rw [hT] at hk1 ⊢
-        exact ⟨hn, by omega, evenFill_core _ (hierTemplate_diag hn) (m + 1) k szcl ds h hsz hk1 hk2⟩
+      have hT : hierT n (m + 1) = hierTemplate hn := by simp [hierT, hn]
+      rw [hT] at hk1 ⊢
+      exact ⟨hn, by omega, evenFill_core _ (hierTemplate_diag hn) (m + 1) k szcl ds h hsz hk1 hk2⟩
     · simp at h
+
+/-- the cluster mask and the free cells `makeevenCIJ` works with -/
+def evenMask (T : AMat Int n) (mx szcl : Nat) : AMat Int n :=
+  AMat.ofFn fun i j => b2i (decide (T.get i j ≥ Int.ofNat mx - (Int.ofNat szcl - 1)))
+
+def evenFree (T : AMat Int n) (mx szcl : Nat) : List (Cell n) :=
+  (List.finRange n).flatMap fun i =>
+    ((List.finRange n).filter fun j => ((evenMask T mx szcl).get i j + b2i (decide (i = j))) == 0).map fun j => (i, j)
+
+theorem evenFill_total (T : AMat Int n) (mx k szcl : Nat) :
+    ∃ m, ∀ ds : List Nat, m ≤ ds.length → isPermOfRange (ds.take m) m = true →
+      ∃ C, evenFill T mx k szcl ds = .ok (C, ds.drop m) := by
+  by_cases hk : Int.ofNat k < matSum (evenMask T mx szcl)
+  · refine ⟨0, fun ds _ _ => ⟨evenMask T mx szcl, ?_⟩⟩
+    unfold evenFill
+    simp only
+    exact (if_pos hk).trans rfl
+  · refine ⟨(evenFree T mx szcl).length, fun ds hlen hperm =>
+      ⟨writeOnes (evenMask T mx szcl) (choose (evenFree T mx szcl) (ds.take (evenFree T mx szcl).length)
+        (Int.ofNat k - matSum (evenMask T mx szcl)).toNat), ?_⟩⟩
+    unfold evenFill
+    simp only
+    have h1 : ¬ ds.length < (evenFree T mx szcl).length := by omega
+    have h2 : ¬ (!isPermOfRange (ds.take (evenFree T mx szcl).length) (evenFree T mx szcl).length) = true := by simp [hperm]
+    exact (if_neg hk).trans ((if_neg h1).trans ((if_neg h2).trans rfl))
+
+/-- totality of `makeevenCIJ`: for n = 2^mx, mx ≥ 1, there is a number m of permutation values such that the routine
+returns for every draw list starting with a permutation of `0 … m-1` (m = 0 when k is below the cluster count) -/
+theorem evenCIJ_total (mx k szcl : Nat) (hmx : 1 ≤ mx) (hn : n = 2 ^ mx) :
+    ∃ m, ∀ ds : List Nat, m ≤ ds.length → isPermOfRange (ds.take m) m = true →
+      ∃ C, evenCIJ n mx k szcl ds = .ok (C, ds.drop m) := by
+  obtain ⟨m, rfl⟩ : ∃ m, mx = m + 1 := ⟨mx - 1, by omega⟩
+  subst hn
+  unfold evenCIJ
+  simp only [dite_true]
+  exact evenFill_total _ _ _ _
+
+/-- totality of `makefractalCIJ`: with a consistent probability matrix and n² uniform draws it returns -/
+theorem fractalCIJ_total (mx szcl E : Nat) (prob : AMat Thr n) (ds : List Nat) (hmx : 1 ≤ mx) (hn : n = 2 ^ mx) (hE : E ≠ 0)
+    (hp : probConsistent (hierT n mx) mx szcl E prob = true) (hds : n * n ≤ ds.length) :
+    ∃ C kk, fractalCIJ n mx szcl E prob ds = .ok (C, kk, ds.drop (n * n)) := by
+  obtain ⟨m, rfl⟩ : ∃ m, mx = m + 1 := ⟨mx - 1, by omega⟩
+  subst hn
+  have hT : hierT (2 ^ (m + 1)) (m + 1) = hierTemplate (rfl : 2 ^ (m + 1) = 2 ^ (m + 1)) := by simp [hierT]
+  rw [hT] at hp
+  unfold fractalCIJ
+  simp only [dite_true]
+  rw [if_neg hE, if_neg (by simpa using hp), if_neg (by omega)]
+  exact ⟨_, _, rfl⟩
 
 /-! ### thresholded uniform matrices -/
 
@@ -107,15 +153,15 @@ theorem toeplitzCIJ_core (k : Nat) (prof : List Thr) (ds : List Nat) {C : AMat I
   · simp at h
   · exact toepLoop_spec _ (toeplitzOf_diag _) k _ _ _ _ (fun p => Or.inl (cellVal_zero p)) (fun i => cellVal_zero _) h
 
-theorem probConsistent_diag (T : AMat Int n) (mx szcl : Nat) (prob : AMat Thr n)
-    (h : probConsistent T mx szcl prob = true) (i : Fin n) : (prob.get i i).1 = 0 := by
+theorem probConsistent_diag (T : AMat Int n) (mx szcl E : Nat) (prob : AMat Thr n)
+    (h : probConsistent T mx szcl E prob = true) (i : Fin n) : (prob.get i i).1 = 0 := by
   unfold probConsistent at h
   simp only [Bool.and_eq_true, List.all_eq_true, List.mem_finRange, forall_const] at h
   have := (h.1 i).1
   simpa using this
 
-theorem fractalCIJ_core (mx szcl : Nat) (prob : AMat Thr n) (ds : List Nat)
-    {C : AMat Int n} {kk : Int} {rest : List Nat} (h : fractalCIJ n mx szcl prob ds = .ok (C, kk, rest)) :
+theorem fractalCIJ_core (mx szcl E : Nat) (prob : AMat Thr n) (ds : List Nat)
+    {C : AMat Int n} {kk : Int} {rest : List Nat} (h : fractalCIJ n mx szcl E prob ds = .ok (C, kk, rest)) :
     kk = matSum C ∧ (∀ p, cellVal C p = 0 ∨ cellVal C p = 1) ∧ (∀ i, cellVal C (i, i) = 0) ∧
     n = 2 ^ mx ∧ rest = ds.drop (n * n) := by
   unfold fractalCIJ at h
@@ -134,8 +180,8 @@ theorem fractalCIJ_core (mx szcl : Nat) (prob : AMat Thr n) (ds : List Nat)
           · simp at h
           · simp only [Except.ok.injEq, Prod.mk.injEq] at h
             obtain ⟨rfl, rfl, rfl⟩ := h
-            have hc : probConsistent (hierTemplate hn) (m + 1) szcl prob = true := by simpa using hcons
-            exact ⟨rfl, sampleLt_val _ _, sampleLt_diag _ (probConsistent_diag _ _ _ _ hc) _, hn, rfl⟩
+            have hc : probConsistent (hierTemplate hn) (m + 1) szcl E prob = true := by simpa using hcons
+            exact ⟨rfl, sampleLt_val _ _, sampleLt_diag _ (probConsistent_diag _ _ _ _ _ hc) _, hn, rfl⟩
     · simp at h
 
 end Bct.Synth
